@@ -728,3 +728,11 @@ Example fixed_custom_landscape :
   let st2 := fst (step st1 (SetMargins 10000 10000 10000 10000)) in
   pg st1 = Some (11339, 5669, "landscape"%string) /\ pg st2 = pg st1 /\ validate landscape_custom = true.
 Proof. vm_compute. repeat split; reflexivity. Qed.
+
+(* calls that name no page setting (headers and footers, body content: op Other) leave every stored section as it is,
+   and so does saving and opening *)
+Lemma other_calls_change_nothing st : step st Other = (st, true) /\ step st Reopen = (st, true).
+Proof. split; reflexivity. Qed.
+Lemma other_calls_in_a_history ops1 ops2 st :
+  run (ops1 ++ Other :: ops2) st = run (ops1 ++ ops2) st.
+Proof. unfold run. rewrite !fold_left_app. reflexivity. Qed.
